@@ -170,7 +170,7 @@ SUITES = {
     'C13': [('determinism', _determinism, 'HashMap/HashSet iteration order in scoper/typer/expander',
              'invalid and valid samples of the repository plus 4 constructed multi-error modules (these 8 times; thorough: 10), each compiled in 3 (thorough: 5) fresh processes'),
             ('diagnostic_locations', _locations, 'alpha parser span bookkeeping (location_of_span, combined_with call sites), error.rs',
-             '8 programs with 14 diagnostics whose primary location must be the line and text of the offending construct (calls, multi-line string literals, undefined names, the last operator of a chain, a non-ABI type directly and behind pointers); every Location in the diagnostics of 10 multi-line constructs, 120 (thorough: all 270) prefixes of one module cut at arbitrary characters (the file ends at its last token), 80 by-construction rejected programs, 60 (thorough: all) invalid samples and 40 CRLF variants: inside the source, starting on the reported line'),
+             '12 programs with 18 diagnostics whose primary (for E358 also the secondary, declaration) location must be the line and text of the offending construct (calls, multi-line string literals, undefined names, the last operator of a chain, a non-ABI type directly and behind pointers, extern declarations that follow other declarations); every Location in the diagnostics of 10 multi-line constructs, 120 (thorough: all 270) prefixes of one module cut at arbitrary characters (the file ends at its last token), 80 by-construction rejected programs, 60 (thorough: all) invalid samples and 40 CRLF variants: inside the source, starting on the reported line'),
             ('rendering', _render, 'error.rs build_report/write and the ariadne renderer',
              'the diagnostics of all (about 900) by-construction rejected programs of the C07/C08/C09 families and 40 (thorough: all) invalid samples x 4 colour/charset configurations: no failure, no escape sequence when colour is off, ASCII when colour is off and arrows are ascii'),
             ('alpha_lexer_spans', _lexa, 'none (spans are also proved: U-LEXA); kept as replay source', 'as C09.alpha_lexer_tokens'),
